@@ -438,6 +438,10 @@ struct BufSys {
             return;
         }
         if (vf::events_total()) fail("heap-event", vf::g_alloc.first_event);
+        for (int s = 0; s < NS; ++s) {
+            std::string fd = slots[s].fence_damage();
+            if (!fd.empty()) fail("write-outside-object", strf("s%d: %s", s, fd.c_str()));
+        }
         // every live object must be valid and exclusively owning
         for (int s = 0; s < NS; ++s)
             if (slots[s].alive) {
